@@ -1,15 +1,42 @@
 #!/bin/sh
 # usage: run.sh <Cxx> quick|thorough   |   run.sh replay <file>
 # Rebuilds the harness against /repo's current working tree, then runs the check.
+# Checks that need the controlled scheduler (C11 C12 C15 C16) run a second binary built
+# with `go build -overlay`: package bcl is rewritten at this point from /repo's working
+# tree (channel ops, go, select, map range, shared accesses -> mc/vsched); /repo is untouched.
 cd "$(dirname "$0")" || exit 2
 . ./env.sh
 mkdir -p .work/gocache
-if ! (cd mc && go build -o ../.work/bclmc ./cmd/bclmc) >.work/build.log 2>&1; then
-  echo "INFRA: harness build failed" >&2
-  cat .work/build.log >&2
-  exit 2
-fi
+build_plain() {
+  if ! (cd mc && go build -o ../.work/bclmc ./cmd/bclmc) >.work/build.log 2>&1; then
+    echo "INFRA: harness build failed" >&2
+    cat .work/build.log >&2
+    exit 2
+  fi
+}
+build_e1() {
+  if ! .work/bclmc instrument >.work/instr.log 2>&1; then
+    echo "INFRA: instrumenter failed" >&2
+    cat .work/instr.log >&2
+    exit 2
+  fi
+  if ! (cd mc && go build -overlay ../.work/overlay/overlay.json -o ../.work/bclmc-e1 ./cmd/bclmc) >.work/build-e1.log 2>&1; then
+    echo "INFRA: instrumented build failed" >&2
+    cat .work/build-e1.log >&2
+    exit 2
+  fi
+}
+needs_e1() {
+  case "$1" in C11|C12|C15|C16) return 0 ;; esac
+  return 1
+}
+build_plain
 case "$1" in
-  replay) exec .work/bclmc replay "$2" ;;
-  *) exec .work/bclmc check "$1" "${2:-quick}" ;;
+  replay)
+    id=$(basename "$2" | cut -d- -f1)
+    if needs_e1 "$id"; then build_e1; exec .work/bclmc-e1 replay "$2"; fi
+    exec .work/bclmc replay "$2" ;;
+  *)
+    if needs_e1 "$1"; then build_e1; exec .work/bclmc-e1 check "$1" "${2:-quick}"; fi
+    exec .work/bclmc check "$1" "${2:-quick}" ;;
 esac
